@@ -85,13 +85,21 @@ def file_hash(paths):
 
 
 # ---------------------------------------------------------------- preparation
+def cfg_dir():
+    """cmake-configured st_config.h lives in a directory keyed by the repository path, so runs against
+    scratch copies (VERIF_REPO) do not disturb each other"""
+    if REPO == '/repo':
+        return os.path.join(WORK, 'cfg')
+    return os.path.join(WORK, 'cfg_' + hashlib.sha1(REPO.encode()).hexdigest()[:10])
+
+
 def prepare_repo():
     """translator + st_config.h from the repository's own cmake feature detection"""
-    with Lock('prepare'):
+    with Lock('prepare' + ('' if REPO == '/repo' else hashlib.sha1(REPO.encode()).hexdigest()[:10])):
         rc, out = sh([sys.executable, os.path.join(VERIF, 'tools/gen_from_source.py'), REPO, VERIF], timeout=300)
         if rc != 0:
             return False, 'translator failed:\n' + out
-        cfg = os.path.join(WORK, 'cfg')
+        cfg = cfg_dir()
         stamp = os.path.join(cfg, 'stamp')
         want = file_hash([os.path.join(REPO, 'CMakeLists.txt'), os.path.join(REPO, 'include/st_config.h.in')]) + REPO
         have = open(stamp).read() if os.path.exists(stamp) else ''
@@ -213,7 +221,7 @@ def build_harness(group, outdir, tag='', flags=(), san=None):
     os.makedirs(outdir, exist_ok=True)
     exe = os.path.join(outdir, 'h_%s%s' % (group, ('_' + tag) if tag else ''))
     cmd = CXX + (list(san) if san is not None else SAN) + list(flags) + [
-        '-I' + os.path.join(REPO, 'include'), '-I' + os.path.join(WORK, 'cfg/include'),
+        '-I' + os.path.join(REPO, 'include'), '-I' + os.path.join(cfg_dir(), 'include'),
         '-I' + os.path.join(WORK, 'gen'), '-I' + os.path.join(VERIF, 'harness'),
         os.path.join(VERIF, 'harness/h_%s.cpp' % group), '-o', exe, '-lpthread']
     rc, out = sh(cmd, timeout=900)
